@@ -323,6 +323,7 @@ type ProduceReq struct {
 	SignKey     int      // index into BPKeys; -1 unsigned
 	Probe       [][]byte // addresses U for the per-tx conservation probe
 	MarkVerified bool    // mark candidates as verified the way the mempool does (account resolved)
+	DeadlineAtTx int     // k>0: the block-generation deadline passes while the k-th candidate is being executed
 }
 
 type RcptInfo struct {
@@ -404,10 +405,20 @@ func (n *Node) Produce(req *ProduceReq) (rsp *ProduceRsp) {
 	bs := n.cs.SDB().NewBlockState(parent.GetHeader().GetBlocksRootHash(), state.SetPrevBlockHash(parent.BlockHash()))
 	bs.SetGasPrice(system.GetGasPrice())
 	bs.Receipts().SetHardFork(n.cfg.Hardfork, bi.No)
-	ctx := context.Background()
+	var ctx context.Context = context.Background()
+	var dl *deadlineCtx
+	if req.DeadlineAtTx > 0 {
+		dl = &deadlineCtx{Context: context.Background(), done: make(chan struct{})}
+		ctx = dl
+	}
 	exec := chain.NewTxExecutor(ctx, nil, n.cs.CDB().(contract.ChainAccessor), bi, contract.BlockFactory)
 	var ops []cchain.TxOp
+	nexec := 0
 	ops = append(ops, cchain.TxOpFn(func(b *state.BlockState, tx types.Transaction) error {
+		nexec++
+		if dl != nil && nexec == req.DeadlineAtTx {
+			dl.expire() // the slot runs out while this transaction is being executed
+		}
 		err := exec(b, tx)
 		if err != nil {
 			rsp.SkipErrs = append(rsp.SkipErrs, fmt.Sprintf("%x: %s", tx.GetHash()[:6], err.Error()))
@@ -584,3 +595,22 @@ func WriteStores(dir string, content map[string]map[string][]byte) error {
 }
 
 var errNotFound = errors.New("not found")
+
+// deadlineCtx is a context whose deadline "passes" when expire is called (Err: DeadlineExceeded, as for a
+// block-production slot that ran out; a cancelled context would mean "node is quitting").
+type deadlineCtx struct {
+	context.Context
+	done chan struct{}
+	once sync.Once
+}
+
+func (d *deadlineCtx) expire()               { d.once.Do(func() { close(d.done) }) }
+func (d *deadlineCtx) Done() <-chan struct{} { return d.done }
+func (d *deadlineCtx) Err() error {
+	select {
+	case <-d.done:
+		return context.DeadlineExceeded
+	default:
+		return nil
+	}
+}
